@@ -562,7 +562,8 @@ class Engine:
                 dotted = '.'.join([mod.imports[parts[0]]] + parts[1:])
                 if dotted == 'math.pi':
                     return self.const_pi(st)
-                if dotted in ('numpy.float64', 'numpy.uint16', 'numpy.ndarray'):
+                if dotted == 'numpy.ndarray' or (dotted.startswith('numpy.') and dotted.split('.')[-1] in (
+                        'float64', 'float32', 'float16', 'int8', 'int16', 'int32', 'int64', 'uint8', 'uint16', 'uint32', 'uint64', 'intp', 'bool_')):
                     return Val('str', None, dotted)
                 if dotted == 'sys.stdout':
                     return Val(('opaque', 'stream'), z3.IntVal(1))
